@@ -267,7 +267,7 @@ std::string run(verif::Reader &rd, Case &c, World &w) {
                 case 0: sink += S->find(*J) + S->find(rd.range(0, sz + 1), *J, ST::case_insensitive) + S->find('a') + S->find("ab") + S->find_last(*J) + S->find_last(rd.range(0, sz + 1), "a") + S->find_last('z', ST::case_insensitive); break;
                 case 1: sink += S->contains(*J) + S->contains('x') + S->contains("ab", ST::case_insensitive) + S->starts_with(*J) + S->ends_with(*J) + S->starts_with("a") + S->ends_with("z", ST::case_insensitive); break;
                 case 2: sink += S->compare(*J) + S->compare_i(*J) + S->compare_n(*J, rd.range(0, sz + 1)) + S->compare_ni(*J, 3) + S->compare("abc") + S->compare_i("ABC") + (*S == *J) + (*S != *J) + (*S < *J) + (*S == "abc"); break;
-                case 3: { ST::conversion_result cr; sink += S->to_int() + S->to_uint(16) + (unsigned long)S->to_long_long(cr, 10) + (unsigned long)S->to_ulong_long(0) + (unsigned long)S->to_double() + (unsigned long)S->to_float(cr) + S->to_bool() + S->to_short() + S->to_ushort(); break; }
+                case 3: { ST::conversion_result cr; sink += S->to_int() + S->to_uint(16) + (unsigned long)S->to_long_long(cr, 10) + (unsigned long)S->to_ulong_long(0) + (S->to_double() > 1.0) + (S->to_float(cr) > 1.0f) + S->to_bool() + S->to_short() + S->to_ushort(); break; }
                 case 4: sink += (unsigned long)ST::hash()(*S) + (unsigned long)ST::hash_i()(*S) + (unsigned long)std::hash<ST::string>()(*S) + ST::less_i()(*S, *J) + ST::equal_i()(*S, *J); break;
                 case 5: { for (char ch : *S) sink += ch; sink += S->front() + S->back() + (sz ? S->at(sz - 1) : 0) + (*S)[0] + (S->rbegin() != S->rend() ? *S->rbegin() : 0) + S->empty(); break; }
                 case 6: { std::string a = S->to_std_string(); std::wstring b = S->to_std_wstring(); std::u16string c16 = S->to_std_u16string(); std::u32string c32 = S->to_std_u32string(); std::string lat = S->to_std_string(false); sink += (unsigned long)(a.size() + b.size() + c16.size() + c32.size() + lat.size()); break; }
